@@ -62,6 +62,62 @@ Section Layout.
   Qed.
 End Layout.
 
+(* ---- SFSDistribution.accumulate / get_accumulation: one row per entry of the spectrum; row i (a bin) is the accumulation of the moment of
+   bin i with the rewards, center and permute of the call (nothing is replaced by a default on the way); rows 0 and beyond the bins are zero ---- *)
+Section Acc.
+  Context {T : Type} (OP : Ops T).
+  Variable Rw : Type.
+  Variable combined : Rw -> nat -> Rw.
+  Variable self_reward : Rw.
+  Variable paccumulate : nat -> list Rw -> bool -> bool -> list T.
+  Notation sfs_acc := (SFSDistribution_accumulate OP Rw combined self_reward paccumulate).
+  Notation bin_acc := (SFSDistribution_get_accumulation Rw combined self_reward paccumulate).
+
+  Theorem gen_sfs_accumulate_layout : forall n indices nt k rewards c p,
+    length indices <= n ->
+    length (sfs_acc n indices nt k rewards c p) = n + 1 /\
+    nth 0 (sfs_acc n indices nt k rewards c p) (repeat (o0 OP) nt) = repeat (o0 OP) nt /\
+    (forall q, q < length indices ->
+       nth (S q) (sfs_acc n indices nt k rewards c p) (repeat (o0 OP) nt) = bin_acc k (nth q indices 0) rewards c p) /\
+    (forall q, length indices < q -> nth q (sfs_acc n indices nt k rewards c p) (repeat (o0 OP) nt) = repeat (o0 OP) nt).
+  Proof.
+    intros n indices nt k rewards c p Hle. unfold SFSDistribution_accumulate. cbn [app].
+    repeat split.
+    - cbn [length]. rewrite app_length, repeat_length, !map_length. lia.
+    - intros q Hq. cbn [nth]. rewrite app_nth1 by (rewrite map_length; exact Hq).
+      rewrite (nth_indep _ (repeat (o0 OP) nt) (bin_acc k 0 rewards c p)) by (rewrite map_length; exact Hq).
+      apply (map_nth (fun i => bin_acc k i rewards c p)).
+    - intros q Hq. destruct q as [|q]; [lia|]. cbn [nth]. rewrite app_nth2 by (rewrite map_length; lia).
+      rewrite map_length. destruct (Nat.lt_ge_cases (q - length indices) (n - length indices)) as [H|H].
+      + apply nth_repeat.
+      + apply nth_overflow. rewrite repeat_length. exact H.
+  Qed.
+
+  (* the unfolded spectrum: row i of accumulate(k, end_times, rewards, center, permute) is super().accumulate with the rewards combined with
+     the reward of bin i and THE SAME center and permute *)
+  Theorem gen_sfs_accumulate_unfolded_entry : forall n nt k rewards c p i,
+    1 <= i -> i < n ->
+    nth i (sfs_acc n (UnfoldedSFSDistribution_get_indices n) nt k (Some rewards) c p) (repeat (o0 OP) nt)
+    = paccumulate k (map (fun r => combined r i) rewards) c p.
+  Proof.
+    intros n nt k rewards c p i H1 Hn. unfold UnfoldedSFSDistribution_get_indices.
+    destruct (gen_sfs_accumulate_layout n (seq 1 (n - 1)) nt k (Some rewards) c p) as [_ [_ [H _]]]; [rewrite seq_length; lia|].
+    destruct i as [|i]; [lia|]. rewrite H by (rewrite seq_length; lia). rewrite seq_nth by lia. reflexivity.
+  Qed.
+
+  Theorem gen_sfs_accumulate_default_rewards : forall n nt k c p i,
+    1 <= i -> i < n ->
+    nth i (sfs_acc n (UnfoldedSFSDistribution_get_indices n) nt k None c p) (repeat (o0 OP) nt)
+    = paccumulate k (repeat (combined self_reward i) k) c p.
+  Proof.
+    intros n nt k c p i H1 Hn. unfold UnfoldedSFSDistribution_get_indices.
+    destruct (gen_sfs_accumulate_layout n (seq 1 (n - 1)) nt k None c p) as [_ [_ [H _]]]; [rewrite seq_length; lia|].
+    destruct i as [|i]; [lia|]. rewrite H by (rewrite seq_length; lia). rewrite seq_nth by lia.
+    unfold SFSDistribution_get_accumulation. f_equal.
+    clear. induction k as [|k IH]; [reflexivity|]. cbn [repeat map]. rewrite IH. reflexivity.
+  Qed.
+End Acc.
+
 (* ---------------------------------------------------------------- matrix updates *)
 Section MSet.
   Context {T : Type} (OP : Ops T).
